@@ -88,13 +88,26 @@ Theorem C04_registry_histories : forall k h s t, mem t (gen_effective k h s) = c
 Proof. exact gen_registry_histories. Qed.
 Print Assumptions C04_registry_histories.
 
-(* only_registry_escapes over histories: after any history, decoding with any serializer runs the application's
+(* only_registry_escapes over histories (decision of the base-class dict_to_class; for the tag a serializer special-cases before it, see C04_node_special_or_registry): after any history, decoding with any serializer runs the application's
    converter for a tag iff that tag is currently registered. *)
 Theorem C04_only_registry_escapes_hist : forall h ser,
   (forall tag flag imps t, gen_decide (gen_effective KD2C h ser) tag flag = (imps, ACustom t) -> currently_registered KD2C h t = true) /\
   (forall s flag, currently_registered KD2C h s = true -> gen_decide (gen_effective KD2C h ser) (VStr s) flag = ([], ACustom s)).
 Proof. exact gen_only_registry_escapes_hist. Qed.
 Print Assumptions C04_only_registry_escapes_hist.
+
+(* The one exception to "registered => converter", stated explicitly: a serializer's own special tag (serpent's NaN
+   encoding, tag "float" — position and tag generated from the source) is turned into a float BEFORE the base class and
+   its registry are consulted, registered or not; every other currently registered text tag goes to its converter. *)
+Theorem C04_node_special_or_registry : forall h ser sub keys vals,
+  let reg := gen_effective KD2C h ser in
+  let special := find_special ser_float_special ser in
+  let node := d2c_node gen_env dtc_pre dtc_chain dtc_tagkey mkexc_argskey mkexc_attrkey reg special sub keys vals in
+  (special_hit special (node_tag dtc_tagkey keys vals) = true -> fst node = [] /\ forall v, snd node = Ok v -> v = VFloat true) /\
+  (forall s, special_hit special (node_tag dtc_tagkey keys vals) = false -> node_tag dtc_tagkey keys vals = VStr s ->
+             currently_registered KD2C h s = true -> node = ([EvConverter s], Ok (VObj (CCustom s) []))).
+Proof. exact gen_node_special_or_registry. Qed.
+Print Assumptions C04_node_special_or_registry.
 
 (* recreate_types over histories: whole payloads, any history first; converters run only for currently registered tags *)
 Theorem C04_recreate_types_hist : forall h ser call parts,
@@ -130,6 +143,11 @@ Example C04_nonvacuous_history :
              {| op_add := false; op_ep := EpBase; op_kind := KD2C; op_tag := txt "a.B" |} ] in
   currently_registered KD2C h (txt "c.D") = true /\ currently_registered KD2C h (txt "a.B") = false /\
   gen_effective KD2C h 3 = [txt "c.D"] /\ gen_effective KD2C h 1 = [txt "c.D"].
+Proof. vm_compute. auto. Qed.
+Example C04_nonvacuous_special :
+  special_hit (find_special ser_float_special 1) (VStr (txt "float")) = true /\ special_hit (find_special ser_float_special 3) (VStr (txt "float")) = false /\
+  gen_run [txt "float"] 1 false [VDict [VStr dtc_tagkey; VStr (txt "value")] [VStr (txt "float"); VStr (txt "nan")]] = ([], Ok [VFloat true]) /\
+  fst (gen_run [txt "float"] 3 false [VDict [VStr dtc_tagkey; VStr (txt "value")] [VStr (txt "float"); VStr (txt "nan")]]) = [EvConverter (txt "float")].
 Proof. vm_compute. auto. Qed.
 Example C04_nonvacuous_registry :
   gen_decide [txt "my.__Special__"] (VStr (txt "my.__Special__")) (fun _ => false) = ([], ACustom (txt "my.__Special__")).
